@@ -583,7 +583,7 @@ func (w *fsWorld) check(ei int, ev, res string) {
 			mech = "stable-cut"
 		}
 		w.out.add("fs_switches", 1)
-		w.out.add(fmt.Sprintf("fs_switch/old=%d,new=%d/%s", len(oldSeg), len(newSeg), mech), 1)
+		w.out.add(fmt.Sprintf("fs_switch/%s/old=%d,new=%d/%s", w.c.Mode, len(oldSeg), len(newSeg), mech), 1)
 		w.out.add(fmt.Sprintf("fs_switch_no/%d", w.switches), 1)
 		oldTxs, newTxs := segTxs(oldSeg), segTxs(newSeg)
 		shape := fmt.Sprintf("old depth %d (%s), new depth %d (%s), %s, after %q", len(oldSeg), segNames(oldSeg), len(newSeg), segNames(newSeg), mech, ev)
@@ -1167,6 +1167,16 @@ func fsAssignments(thorough bool, s fsSchedule, emit func(place map[string]strin
 			one(map[string]string{"t1": p, "t2": q}, false)
 		}
 	}
+	if !thorough && !deep && s.dx+s.dy <= 3 && s.events[len(s.events)-1] == "cm1" {
+		// quick: the box and both its sub-transactions on the three-branch schedules of the smallest shapes
+		for _, p := range ends {
+			for _, q := range ends {
+				for _, r := range ends {
+					one(map[string]string{"b": p, "u1": q, "u2": r}, false)
+				}
+			}
+		}
+	}
 	if !thorough || deep {
 		return
 	}
@@ -1278,7 +1288,12 @@ func fsEnumerate(thorough bool, emit func(c fsCase)) {
 			for k, v := range place {
 				pl[k] = v
 			}
-			emit(fsCase{Mode: "obs", Base: s.base, Place: pl, Pre: pre, Events: s.events})
+			ev := s.events
+			if _, ok := pl["e"]; ok {
+				// the cases with the early-expiring transaction end with a selection at the node's clock
+				ev = cat(ev, "get")
+			}
+			emit(fsCase{Mode: "obs", Base: s.base, Place: pl, Pre: pre, Events: ev})
 		})
 	}
 	fsDepCases(thorough, emit)
